@@ -17,6 +17,13 @@ let handle (line : string) : string =
   | "dec" ->
       let ty, hex = split1 rest in
       show_dec (inst_dec_top (coqstr ty) (bytes_of_hex hex))
+  | "spec" ->
+      (* the specification (Denote.v): same output format as "dec"; every rejection is "rej" *)
+      let ty, hex = split1 rest in
+      let bs = bytes_of_hex hex in
+      (match inst_spec_decode (coqstr ty) bs with
+       | Some (v, n) -> Printf.sprintf "ok %s %d" (show_val v) (List.length bs - int_of_n n)
+       | None -> "rej")
   | "norm" -> show_val (inst_normalize (val_of_string rest))
   | "rt" ->
       (* what a correct implementation prints: bytes, Decode(Encode v) = normalize v, re-encoding identical *)
